@@ -530,15 +530,29 @@ theorem lazy_snapshot_needs_the_abort_in_undo : fileHeld 256 (lrun 256 false tru
 
 /-! ## round 4: the index file's positions and flag bytes, and what Chain.Close leaves in UTXO.db — REGENERATED FACTS again
 
-Model/PersistIdx.lean; the three facts `flagRewriteSource`, `invalidRecordAdvances`, `closeSaveGuard` are read from
-BlockDB.setBlockFlag, BlockDB.LoadBlockIndex and UnspentDB.Close by go/cmd/gen_c07 on every run. -/
+Model/PersistIdx.lean; the facts `flagRewriteSource`, `invalidRecordAdvances`, `loadSeeksAppendPos`, `closeSaveGuard`,
+`commitSetsDirty`, `undoSetsDirty`, `saveClearsDirtyOnlyWhenComplete` are read from BlockDB.setBlockFlag, BlockDB.LoadBlockIndex,
+UnspentDB.Close / CommitBlockTxs / UndoBlockTxs / save by go/cmd/gen_c07 on every run (for the source shapes it knows; any
+other shape stops the translator). -/
 
 open GocoinV.Gen.C07Facts in
-/-- the three structural facts of round 4 are the ones the models were written for: setBlockFlag ORs the flag into the byte it
+/-- the structural facts of round 4 are the ones the models were written for: setBlockFlag ORs the flag into the byte it
     READ FROM THE FILE at the record's position; in LoadBlockIndex a record flagged invalid advances the position counter like
-    every other record; UnspentDB.Close writes UTXO.db whenever the set is dirty (nothing else is asked). -/
+    every other record, and after its loop the handle of blockchain.new is positioned at that counter (the index model identifies
+    "append position" and "where the next write lands": without the Seek the handle stands at the end of the FILE, behind a torn
+    record); UnspentDB.Close writes UTXO.db whenever the set is dirty (nothing else is asked); CommitBlockTxs and UndoBlockTxs mark
+    the set dirty on every path that returns, and the flag is cleared only by a snapshot walk that was not aborted. -/
 theorem source_facts_round4_are_the_modelled_ones :
-    flagRewriteSource = .disk ∧ invalidRecordAdvances = true ∧ closeSaveGuard = .dirty := by decide
+    flagRewriteSource = .disk ∧ invalidRecordAdvances = true ∧ loadSeeksAppendPos = true ∧ closeSaveGuard = .dirty ∧
+    commitSetsDirty = true ∧ undoSetsDirty = true ∧ saveClearsDirtyOnlyWhenComplete = true := by decide
+
+open GocoinV.Gen.C07Facts in
+/-- the two places of the CLIENT that the harness re-implements instead of running (go/cmd/c07/child.go: the fresh process opens
+    the chain with DoNotRescan and accepts a recovered block by AbortWriting, BlockAdd, CommitBlock in this order) read as in the
+    source: client/init.go passes `DoNotRescan: true`; client/main.go LocalAcceptBlock makes the three calls as plain top-level
+    statements in that order. (A tripwire for these two shapes only: the rest of do_the_blocks / host_init is trusted to be what
+    child.go mirrors.) -/
+theorem client_facts_are_the_mirrored_ones : clientDoNotRescan = true ∧ clientAcceptOrder = true := by decide
 
 open GocoinV.Persist.Idx GocoinV.Gen.C07Facts in
 /-- EVERY index record keeps what it was written with: for ANY directory `d` (any flag bytes, records flagged invalid anywhere)
@@ -597,13 +611,15 @@ theorem idx_flag_rewrite_from_memory_loses_the_data_file :
 
 open GocoinV.Persist.Idx GocoinV.Gen.C07Facts in
 /-- "a clean shutdown followed by a restart reproduces the pre-shutdown state" at the level of WHICH BLOCK UTXO.db NAMES: with
-    UnspentDB.Close's guard AS WRITTEN IN THE SOURCE, for ANY history of commits, undos (operator undo, reorganisations), Idle
+    UnspentDB.Close's guard and the two "marks the set dirty" facts as the translator read them from the source, for ANY history of commits, undos (operator undo, reorganisations), Idle
     calls under any UTXO_SKIP_SAVE_BLOCKS and restarts, starting from a node whose clean set is the one on disk, every restart
     comes up at exactly the block and height the node had when it was shut down. -/
 theorem close_restart_identity_model (s : CSt) (ops : List COp) (hs : Clean s) :
-    ∀ p ∈ restartPairs closeSaveGuard s ops, p.1 = p.2 := by
+    ∀ p ∈ restartPairs closeSaveGuard commitSetsDirty undoSetsDirty s ops, p.1 = p.2 := by
   have h : closeSaveGuard = .dirty := by decide
-  rw [h]
+  have h1 : commitSetsDirty = true := by decide
+  have h2 : undoSetsDirty = true := by decide
+  rw [h, h1, h2]
   exact restartPairs_dirty ops s hs
 
 open GocoinV.Persist.Idx in
@@ -614,10 +630,21 @@ open GocoinV.Persist.Idx in
     writes nothing after "snapshot at block 5 (height 5); block 5 undone; another block 55 accepted at height 5" - the restart
     comes up at block 5 although the node was shut down at block 55; the guard as written writes UTXO.db there. -/
 theorem close_guard_by_height_loses_a_same_height_switch :
-    restartPairs .dirtyAndHeightDiffers { tip := 5, height := 5, dTip := 5, dHeight := 5 } [.undo 4, .commit 55, .idle 0, .restart]
+    restartPairs .dirtyAndHeightDiffers true true { tip := 5, height := 5, dTip := 5, dHeight := 5 } [.undo 4, .commit 55, .idle 0, .restart]
       = [((55, 5), (5, 5))] ∧
-    restartPairs .dirty { tip := 5, height := 5, dTip := 5, dHeight := 5 } [.undo 4, .commit 55, .idle 0, .restart]
+    restartPairs .dirty true true { tip := 5, height := 5, dTip := 5, dHeight := 5 } [.undo 4, .commit 55, .idle 0, .restart]
       = [((55, 5), (55, 5))] := by
+  decide
+
+open GocoinV.Persist.Idx in
+/-- … and it needs UndoBlockTxs to mark the set dirty: "snapshot at block 5 complete; the operator undoes block 5; clean shutdown
+    with nothing committed in between" - if the undo leaves the flag alone, Close writes nothing and the restart comes up at
+    block 5 again (the undo silently did nothing); as written it comes up at block 4. The same for two undos. -/
+theorem close_needs_undo_to_mark_the_set_dirty :
+    restartPairs .dirty true false { tip := 5, height := 5, dTip := 5, dHeight := 5 } [.undo 4, .restart] = [((4, 4), (5, 5))] ∧
+    restartPairs .dirty true true { tip := 5, height := 5, dTip := 5, dHeight := 5 } [.undo 4, .restart] = [((4, 4), (4, 4))] ∧
+    restartPairs .dirty true false { tip := 5, height := 5, dTip := 5, dHeight := 5 } [.undo 4, .undo 3, .idle 4294967295, .restart]
+      = [((3, 3), (5, 5))] := by
   decide
 
 end GocoinV.Props.C07
